@@ -30,6 +30,9 @@ type VNode struct {
 type VPred struct {
 	ID string `json:"id"`
 	A  *int64 `json:"a"`
+	// Z: zone offset in minutes used when the anchor is WRITTEN into a statement text; not part of the value (the
+	// instant A identifies the anchor), never set on observed predicates
+	Z int `json:"z,omitempty"`
 }
 type VObj struct {
 	N *VNode  `json:"n,omitempty"`
@@ -99,6 +102,16 @@ type Seq struct {
 	Bulk  int                  `json:"bulk"`
 	Prev  map[string][]VTriple `json:"prev,omitempty"` // store the first reported statement starts from (default: empty)
 	Stmts []VStmt              `json:"stmts"`
+	Burst *Burst               `json:"burst,omitempty"`
+}
+
+// Burst: statements issued concurrently (CREATE GRAPH of one new name, then INSERT of an own triple, per goroutine)
+type Burst struct {
+	Workers   int       `json:"workers"`
+	CreateOK  int       `json:"create_ok"`
+	InsertOK  []VTriple `json:"insert_ok"` // triples whose INSERT reported success
+	Final     []VTriple `json:"final"`     // listing of the graph afterwards
+	GraphSeen bool      `json:"graph_seen"`
 }
 
 // ---------------------------------------------------------------- blank-node numbering
@@ -192,8 +205,16 @@ func predText(p VPred) string {
 	if p.A == nil {
 		return fmt.Sprintf("%q@[]", p.ID)
 	}
-	return fmt.Sprintf("%q@[%s]", p.ID, time.Unix(0, *p.A).UTC().Format(time.RFC3339Nano))
+	t := time.Unix(0, *p.A).UTC()
+	if p.Z != 0 {
+		t = t.In(time.FixedZone("", p.Z*60))
+	}
+	return fmt.Sprintf("%q@[%s]", p.ID, t.Format(time.RFC3339Nano))
 }
+
+// zones in which the same instant gets spelled
+var zones = []int{0, 0, 120, -330}
+
 func (b *Blanks) objText(o VObj) string {
 	switch {
 	case o.N != nil:
@@ -351,7 +372,7 @@ func (g *Gen) constPred() VPred {
 	switch g.R.Intn(4) {
 	case 0:
 		a := anchors[g.R.Intn(len(anchors))]
-		return VPred{ID: "r", A: &a}
+		return VPred{ID: "r", A: &a, Z: zones[g.R.Intn(len(zones))]}
 	case 1:
 		return VPred{ID: "q"}
 	}
